@@ -185,10 +185,11 @@ fn classify(r: Option<Result<PrecisDerivedProperty, precis_tools::Error>>) -> Go
 
 fn run_case(case: &Case, scratch: Option<&Path>) -> Outcome {
     let full = case.file.bytes();
-    let (data, expected, inside_char) = match case.torn_at {
+    let (data, expected, inside_char): (Vec<u8>, Vec<Entry>, bool) = match case.torn_at {
         Some(at) => {
             let at = at.min(full.len());
             let (e, ic) = case.file.torn_expectations(at);
+            let e = e.into_iter().enumerate().map(|(i, exp)| Entry { line: i as u64 + 2, exp, optional: false, row: Some(i) }).collect();
             (full[..at].to_vec(), e, ic)
         }
         None => (full, case.file.expectations(), false),
@@ -240,8 +241,17 @@ fn run_case(case: &Case, scratch: Option<&Path>) -> Outcome {
         }
     };
 
+    // `i` counts next() calls, `ei` walks the expected entries (they differ only when a corrupted
+    // line legitimately produced no item)
     let mut i = 0usize;
+    let mut ei = 0usize;
     let mut ended = false;
+    let row_of = |ei: usize| -> (String, String) {
+        match expected.get(ei).and_then(|e| e.row) {
+            Some(r) => row_info(r),
+            None => ("beyond_last_row".to_string(), String::new()),
+        }
+    };
     while i < max_calls {
         let got = next(i);
         let hard_at = shared.borrow().hard_fired_at_call;
@@ -261,7 +271,7 @@ fn run_case(case: &Case, scratch: Option<&Path>) -> Outcome {
             if hard_at != Some(i) {
                 if let Got::Rec { .. } = got {
                     out.rows_after_hard_error += 1;
-                    let in_file = expected.iter().any(|e| judge(e, &got, 0).is_none() && matches!(e, Expect::Rec { .. }));
+                    let in_file = expected.iter().any(|e| matches!(e.exp, Expect::Rec { .. }) && judge(&e.exp, &got, 0).is_none());
                     if !in_file {
                         out.of_which_not_in_file += 1;
                     }
@@ -269,22 +279,53 @@ fn run_case(case: &Case, scratch: Option<&Path>) -> Outcome {
             }
             if got == Got::None || got == Got::Panic {
                 if got == Got::Panic {
-                    let (c, t) = row_info(i);
-                    out.violation = Some(Violation { kind: "panic".into(), index: i, line: i as u64 + 2, expected: json!("no panic"), got: json!("panic"), row_class: c, row_text: t });
+                    let (c, t) = row_of(ei);
+                    out.violation = Some(Violation { kind: "panic".into(), index: i, line: 0, expected: json!("no panic"), got: json!("panic"), row_class: c, row_text: t });
                 }
                 break;
             }
             i += 1;
             continue;
         }
-        let line = i as u64 + 2;
-        if i < expected.len() {
-            let exp = &expected[i];
+        // corrupted lines: the item belongs to the corrupted line if it is an I/O-style error
+        // (no line number) or an error carrying that line's number, or a record with that row's
+        // own code points and properties (lossy decoding); otherwise the line produced nothing
+        let mut consumed_by_corrupt = false;
+        while ei < expected.len() && expected[ei].optional {
+            let e = &expected[ei];
+            let belongs = match &got {
+                Got::Panic => true,
+                Got::None => false,
+                Got::Err { line, io, .. } => *io || line.is_none() || *line == Some(e.line),
+                Got::Rec { lo, hi, p, q, .. } => match e.row.map(|r| &case.file.rows[r].body) {
+                    Some(Body::Good(g)) => (g.lo, g.hi, g.p, g.q) == (*lo, *hi, *p, *q) && expected.get(ei + 1).map(|n| judge(&n.exp, &got, n.line).is_some()).unwrap_or(true),
+                    _ => false,
+                },
+            };
+            ei += 1;
+            if belongs {
+                consumed_by_corrupt = true;
+                break;
+            }
+        }
+        if consumed_by_corrupt {
+            if got == Got::Panic {
+                let (c, t) = row_of(ei - 1);
+                out.violation = Some(Violation { kind: "panic".into(), index: i, line: expected[ei - 1].line, expected: json!("no panic"), got: json!("panic"), row_class: c, row_text: t });
+                break;
+            }
+            out.items += 1;
+            i += 1;
+            continue;
+        }
+        if ei < expected.len() {
+            let exp = &expected[ei].exp;
+            let line = expected[ei].line;
             // the last expected item of a torn file may legitimately be the end of the stream
             let lenient_end = matches!(exp, Expect::Any) && got == Got::None;
             if !lenient_end {
                 if let Some(kind) = judge(exp, &got, line) {
-                    let (c, t) = row_info(i);
+                    let (c, t) = row_of(ei);
                     out.violation = Some(Violation { kind: kind.into(), index: i, line, expected: expect_to_json(exp), got: got_to_json(&got), row_class: c, row_text: t });
                     break;
                 }
@@ -294,10 +335,12 @@ fn run_case(case: &Case, scratch: Option<&Path>) -> Outcome {
                 break;
             }
             out.items += 1;
+            ei += 1;
             if case.consumer.stop_at_first_err && matches!(got, Got::Err { .. }) {
                 break;
             }
         } else {
+            let line = case.file.rows.len() as u64 + 2;
             match got {
                 Got::None => {
                     ended = true;
@@ -345,6 +388,9 @@ fn run_case(case: &Case, scratch: Option<&Path>) -> Outcome {
 /// Secondary oracle: the same row text parsed directly through `FromStr` (no stream, no line number).
 fn direct_check(file: &FileModel) -> Option<Violation> {
     for (i, r) in file.rows.iter().enumerate() {
+        if r.corrupt.is_some() {
+            continue;
+        }
         let text = r.text();
         let exp = match &r.body {
             Body::Good(g) => Expect::Rec { lo: g.lo, hi: g.hi, p: g.p, q: g.q, desc: g.desc.clone() },
@@ -372,13 +418,17 @@ fn direct_check(file: &FileModel) -> Option<Violation> {
 fn plan_case(seed: u64, idx: u64, tier: &str) -> Case {
     let mut rng = Rng::derive(seed, idx, 17);
     let cfg = gen_cfg(&mut rng, tier == "thorough");
-    let file = gen_file(&mut rng, &cfg);
-    let len = file.bytes().len();
+    let mut file = gen_file(&mut rng, &cfg);
     let config = match rng.below(10) {
         0..=5 => "strict",
         6..=7 => "torn",
         _ => "hard",
     };
+    if config == "strict" && cfg.corrupt_lines > 0 {
+        corrupt_file(&mut rng, &mut file, cfg.corrupt_lines);
+        file.normalise();
+    }
+    let len = file.bytes().len();
     // fault position biased to land inside a row: after a comma, inside a multi-byte character,
     // at a buffer refill boundary; otherwise uniform
     let fault_pos = |rng: &mut Rng| -> usize {
@@ -498,6 +548,11 @@ fn worker(seed: u64, from: u64, to: u64, tier: &str, scratch: &Path) -> (Value, 
         bump("fault_split_in_crlf", o.stats.split_in_crlf);
         bump("fault_split_inside_line", o.stats.split_inside_line);
         bump("bytes_read", o.stats.bytes);
+        let ncorrupt = case.file.rows.iter().filter(|r| r.corrupt.is_some()).count() as u64 + case.file.header_corrupt.is_some() as u64;
+        bump("fault_corrupt_stored_byte(lines)", ncorrupt);
+        if case.file.header_corrupt.is_some() {
+            bump("fault_corrupt_header", 1);
+        }
         if case.torn_at.is_some() {
             bump("fault_torn_file", 1);
             if case.file.torn_expectations(case.torn_at.unwrap()).1 {
@@ -517,7 +572,7 @@ fn worker(seed: u64, from: u64, to: u64, tier: &str, scratch: &Path) -> (Value, 
         }
         bump("probe_item_after_none_requested", o.asked_after_none);
         distinct.insert(o.history_hash);
-        if o.stats.split_inside_line > 0 || o.stats.eintr > 0 || o.stats.hard_errors > 0 || case.torn_at.is_some() {
+        if o.stats.split_inside_line > 0 || o.stats.eintr > 0 || o.stats.hard_errors > 0 || case.torn_at.is_some() || ncorrupt > 0 {
             distinct_nontrivial.insert(o.history_hash);
         }
         if samples.len() < 2 && o.stats.split_inside_line > 0 && case.file.rows.len() <= 3 && !case.file.rows.is_empty() && case.file.bytes().len() < 300 {
@@ -600,6 +655,15 @@ fn shrink_case(case: &Case) -> Vec<Case> {
         let mut c = case.clone();
         c.file.rows.remove(i);
         c.file.normalise();
+        out.push(c);
+    }
+    // undo stored-byte corruption
+    if case.file.has_corruption() {
+        let mut c = case.clone();
+        c.file.header_corrupt = None;
+        for r in &mut c.file.rows {
+            r.corrupt = None;
+        }
         out.push(c);
     }
     // simpler consumer / no real file / no tearing
